@@ -427,7 +427,14 @@ static ChildResult run_in_child(Plan const& plan, Profile const* prof, std::stri
     if (prof->judge_parent && !cr.pre.empty())
     {
       Verdict pv = prof->judge_parent(plan, cr.pre, st, scratch);
-      // statistics of the child are in the PRE record's trailer if present
+      // statistics of the child up to the terminal event travel in the PRE record
+      size_t sp = cr.pre.find("\nstats ");
+      if (sp != std::string::npos)
+      {
+        std::istringstream ss(cr.pre.substr(sp + 7));
+        ss >> cr.steps >> cr.switches >> cr.preemptions >> cr.vns >> cr.hash >> cr.stalls;
+      }
+      cr.faults[13] = 1;
       cr.v = pv;
       cr.have_record = true;
       return cr;
